@@ -200,6 +200,9 @@ func runC20(seed uint64) {
 			rad := radiusFor(op.n(3), d)
 			known := inTableOrRepl(cp.node.ID())
 			var err error
+			// from here until the verdict the puppet's radius IS the one being reported: a liveness ping of
+			// the table that lands in this window must not re-report the previous one
+			cp.pongSet, cp.pongType, cp.pongRadius = true, ptype, rad
 			if via == 0 {
 				_, err = w.call("ping", 5*time.Second, func() error {
 					_, e := cp.pup.talk(V.self(), netID, encPing(cp.pup.self().Seq(), ptype, encRadiusPayload(ptype, rad)))
@@ -207,14 +210,10 @@ func runC20(seed uint64) {
 				})
 				w.runFor(20 * time.Millisecond) // ping processing is asynchronous
 			} else {
-				cp.pongSet, cp.pongType, cp.pongRadius = true, ptype, rad
-				pt := ptype
 				_, err = w.call("vping", 5*time.Second, func() error {
 					_, e := vp.api.Ping(cp.pup.enr(), nil, nil)
 					return e
 				})
-				cp.pongSet = false
-				_ = pt
 				w.runFor(20 * time.Millisecond)
 			}
 			_ = known
@@ -248,6 +247,7 @@ func runC20(seed uint64) {
 					}
 				}
 			}
+			cp.pongSet = false
 			if counted {
 				cp.radius = rad
 				w.probe(fmt.Sprintf("report_via%d_type%d", via, ptype))
